@@ -474,9 +474,9 @@ pub fn run(a: &Cli) -> Report {
         let probes = if seen >= 2 {
             0
         } else if matches!(death, Death::Hang) {
-            6 // every probe of a hanging case burns 5 s of CPU
+            0 // every probe of a hanging case burns 5 s of CPU: witness as found
         } else {
-            40
+            20
         };
         report_death(rep, &dir2, &t, &v, r, &death.class(), &death.detail(), probes);
     });
